@@ -556,3 +556,128 @@ def nested_copy_rule(ctx, rid):
                     or isinstance(e, (ast.ListComp, ast.List))
         ctx.ob(rid, f'{ci.qual}.copy:{f}', ok, '' if ok else f'copy() passes `{ast.unparse(v)[:50] if v is not None else None}` for `{f}`, but {where} appends to the inner list in place: '
                'a copied simulation state that measures the same key again also changes the records of the original (repeated keys, replay from copies)', ci.mod.rel, fn.lineno)
+
+
+def pauli_measurement_decomposition_rule(ctx, rid):
+    """PauliMeasurementGate._decompose_ = V^-1 . measure Z on one qubit . V, with V P V^dag = Z on that qubit (interpreted, all masks on <= 3 qubits)."""
+    import itertools
+    import numpy as np
+    from .. import fdx
+    from . import c14, decomp
+    from .c19 import _embed
+    repo = ctx.repo
+    ctx.rule(rid, 'Pauli measurement by decomposition: the operations yielded before the single-qubit measurement map the observable P to +Z on the measured qubit, '
+             'the operations yielded after it undo exactly those operations (so the post-measurement state is the projection onto the eigenspace of P), and the '
+             'measured bit is inverted exactly when the coefficient is -1 - for every Pauli mask on up to 3 qubits', floor=40, style='FDX')
+    ci = repo.cls('cirq.ops.pauli_measurement_gate.PauliMeasurementGate')
+    fn = ci.methods.get('_decompose_')
+    if fn is None:
+        raise AnalysisError('PauliMeasurementGate._decompose_ vanished')
+    pm = repo.module('cirq-core/cirq/ops/pauli_string_phasor.py')
+    xor_fn = pm.defs.get('xor_nonlocal_decompose')
+    if xor_fn is None:
+        raise AnalysisError('xor_nonlocal_decompose vanished')
+    H = np.array([[1, 1], [1, -1]], dtype=complex) / np.sqrt(2)
+    S = np.diag([1, 1j]).astype(complex)
+    TO_Z = {'X': H, 'Y': H @ np.conj(S).T, 'Z': None}
+    comps = {}
+
+    class Obs:
+        def __init__(self, names, coefficient):
+            self.names, self.coefficient = names, coefficient
+
+    for n in (1, 2, 3):
+        for names in itertools.product('XYZ', repeat=n):
+            for coef in (1, -1):
+                self_obj = {'_observable': Obs(names, coef), 'mkey': 'k', '_mkey': 'k', 'confusion_matrix': None, '_confusion_matrix': None, 'key': 'k'}
+                attr_hook, base_call_hook, name_lookup = decomp.make_env_hooks(repo, ci, fn, self_obj)
+                marks = []
+
+                def call_hook(call, it, _b=base_call_hook, _names=names):
+                    s = ast.unparse(call.func)
+                    if s.endswith('to_z_basis_ops'):
+                        qs = it.env['qubits']
+                        return [decomp.OpV(decomp.GateV(None, kind='matrix', coefficient=TO_Z[c], n=1), [q]) for q, c in zip(qs, _names) if c in 'XY']
+                    if s.endswith('freeze_op_tree'):
+                        v = it.ev(call.args[0])
+                        return tuple(v) if isinstance(v, (list, tuple)) else v
+                    if s.endswith('inverse') and len(call.args) == 1:
+                        flat = []
+                        decomp._flatten(it.ev(call.args[0]), flat)
+                        return [o ** -1 for o in reversed(flat)]
+                    if s.endswith('xor_nonlocal_decompose'):
+                        class _Owner:           # the helper lives in another module: names inside it resolve there
+                            mod = pm
+                            methods = {}
+                        ah, ch, nl = decomp.make_env_hooks(repo, _Owner, xor_fn, {})
+                        sub = decomp.GenInterp({a.arg: it.ev(v) for a, v in zip(xor_fn.args.args, call.args)}, call_hook=ch, attr_hook=ah)
+                        c14._wire(sub, nl, ah)
+                        sub.call(xor_fn)
+                        return sub.out
+                    if s.endswith('MeasurementGate'):
+                        inv = None
+                        for k in call.keywords:
+                            if k.arg == 'invert_mask':
+                                inv = it.ev(k.value)
+                        return ('MEASURE-GATE', inv)
+                    if isinstance(call.func, ast.Attribute) and call.func.attr == 'on':
+                        recv = it.ev(call.func.value)
+                        if isinstance(recv, tuple) and recv and recv[0] == 'MEASURE-GATE':
+                            q = it.ev(call.args[0])
+                            m = decomp.OpV(decomp.GateV(None, kind='identity', n=1), [q])
+                            m.measure = recv[1]
+                            return m
+                    return _b(call, it)
+                it = decomp.GenInterp({'self': self_obj, 'qubits': tuple(decomp.Q(i) for i in range(n))}, call_hook=call_hook, attr_hook=attr_hook)
+                c14._wire(it, name_lookup, attr_hook)
+                base_attr = it.attr_hook
+
+                def attr3(node, itp, _o=base_attr):
+                    r = _o(node, itp)
+                    if r is not NotImplemented:
+                        return r
+                    try:
+                        v = itp.ev(node.value)
+                    except fdx.Unsupported:
+                        return NotImplemented
+                    if isinstance(v, Obs) and hasattr(v, node.attr):
+                        return getattr(v, node.attr)
+                    return NotImplemented
+                it.attr_hook = attr3
+                key = f'{ci.qual}._decompose_:{"-" if coef < 0 else "+"}{"".join(names)}'
+                try:
+                    ret = it.call(fn)
+                    tree = it.out if it.out else ret
+                    ops_ = []
+                    decomp._flatten(tree, ops_)
+                except fdx.Unsupported as ex:
+                    raise AnalysisError(f'PauliMeasurementGate._decompose_ is outside the interpretable subset: {ex}')
+                mi = [i for i, o in enumerate(ops_) if hasattr(o, 'measure')]
+                if len(mi) != 1:
+                    ctx.ob(rid, key, False, f'decomposition contains {len(mi)} measurements instead of one', ci.mod.rel, fn.lineno)
+                    continue
+
+                def product(seq):
+                    u = np.eye(2 ** n, dtype=complex)
+                    for op in seq:
+                        mtx = decomp.gate_matrix(repo, comps, op.gate)
+                        u = _embed(mtx, [q.idx for q in op.qubits], n) @ u
+                    return u
+                pre, post = product(ops_[:mi[0]]), product(ops_[mi[0] + 1:])
+                mq = ops_[mi[0]].qubits[0].idx
+                P = np.eye(1, dtype=complex)
+                for c in names:
+                    P = np.kron(P, c14.MATS[c])
+                Zq = _embed(c14.PZ, [mq], n)
+                ok_map = np.allclose(pre @ P @ np.conj(pre).T, Zq, atol=1e-9)
+                ok_undo = np.allclose(post @ pre, np.eye(2 ** n), atol=1e-9)
+                inv = ops_[mi[0]].measure
+                ok_inv = inv is not None and bool(tuple(inv)[0]) == (coef != 1)
+                msg = ''
+                if not ok_map:
+                    msg = 'the operations before the measurement do not map the observable to +Z on the measured qubit'
+                elif not ok_undo:
+                    msg = 'the operations after the measurement are not the inverse of the operations before it: the recorded bit is right but the post-measurement state is not the eigenspace projection'
+                elif not ok_inv:
+                    msg = f'invert mask {inv} does not match the sign of the observable'
+                ctx.ob(rid, key, not msg, msg, ci.mod.rel, fn.lineno, construct=f'{ci.qual}._decompose_:{len(names)}q')
